@@ -5,7 +5,7 @@
    idx <strict> <smax> <n> REC*       -> ok [i,..] | err slice_range
    load <strict> <permit> <fp> [expd] <smax> <nlab> <n> REC*
         -> ok idx=[..] nsl=<n> nvol=<n> payload=[..] slope=[..] inter=[..] labels=<l0>;<l1>;.. (li = [..] or -)
-         | err truncated | err slice_range
+         | err truncated | err slice_range | err no_volume
    REC = [keys] sl pid rs ri ss [cks] [labs]     (rs ri ss: float64 bit patterns as signed int64) *)
 let f_of_z (x : z) : float = Int64.float_of_bits (BigZ.to_int64 (big_of_z x))
 let z_of_f (f : float) : z = z_of_big (BigZ.of_int64 (Int64.bits_of_float f))
@@ -22,7 +22,7 @@ let rec rows_of_args n args = if n = 0 then [] else match args with
   | k :: r -> zlist_of_string k :: rows_of_args (n - 1) r
   | _ -> failwith "bad rows"
 let string_of_natlist l = "[" ^ String.concat "," (List.map (fun i -> string_of_int (int_of_nat i)) l) ^ "]"
-let string_of_err = function ErrTruncated -> "truncated" | ErrSliceRange -> "slice_range"
+let string_of_err = function ErrTruncated -> "truncated" | ErrSliceRange -> "slice_range" | ErrNoVolume -> "no_volume"
 let handle op args = match op, args with
   | "volnos", [l] -> "ok " ^ string_of_zlist (vol_numbers (zlist_of_string l))
   | "isfull", [m; l] ->
